@@ -196,5 +196,42 @@ theorem parse_perm {S : Sites} (h : S.ok = true) (junk junk' : Pending K) {rs rs
     cases hb
     exact hp.map _
 
+/-! ### the cluster check: a class whose handler pushes too few scale entries is unreachable -/
+
+theorem starved_unreachable (S : ObsSites) (k : Kind) (h : S.starves k = true) (rs : List ClusterRec)
+    (hv : S.validRun rs = true) :
+    scaleSize rs ≤ S.obsDim rs ∧ ((∃ r ∈ rs, S.builds r.1 = k) → scaleSize rs < S.obsDim rs) := by
+  have hk : ∀ t c, c ∈ S.scalePushes t →
+      c ≤ S.dimension (S.builds t) ∧ (S.builds t = k → c < S.dimension (S.builds t)) := by
+    intro t c hc
+    have h1 := (List.all_eq_true.mp h) t (Kind.mem_all t)
+    have h2 := (List.all_eq_true.mp h1) c hc
+    simp only [Bool.and_eq_true, Bool.or_eq_true, decide_eq_true_eq, bne_iff_ne, ne_eq] at h2
+    refine ⟨h2.1, fun hb => ?_⟩
+    rcases h2.2 with h3 | h3
+    · exact absurd hb h3
+    · exact h3
+  induction rs with
+  | nil => simp [scaleSize, ObsSites.obsDim]
+  | cons r t ih =>
+    simp only [ObsSites.validRun, List.all_cons, Bool.and_eq_true] at hv
+    have hr : r.2 ∈ S.scalePushes r.1 := by simpa using hv.1
+    obtain ⟨i1, i2⟩ := ih hv.2
+    obtain ⟨k1, k2⟩ := hk r.1 r.2 hr
+    simp only [scaleSize, ObsSites.obsDim, List.map_cons, List.sum_cons] at i1 i2 ⊢
+    refine ⟨by omega, ?_⟩
+    rintro ⟨q, hq, hb⟩
+    rcases List.mem_cons.mp hq with rfl | hq
+    · have := k2 hb; omega
+    · have := i2 ⟨q, hq, hb⟩; omega
+
+/-- a cluster that passes the first check of `DataParser::g3_obs` contains no record that builds a `k` -/
+theorem starved_refused (S : ObsSites) (k : Kind) (h : S.starves k = true) (rs : List ClusterRec)
+    (hv : S.validRun rs = true) (hc : S.scaleCheck rs = true) : ∀ r ∈ rs, S.builds r.1 ≠ k := by
+  intro r hr hb
+  have := (starved_unreachable S k h rs hv).2 ⟨r, hr, hb⟩
+  simp only [ObsSites.scaleCheck, beq_iff_eq] at hc
+  omega
+
 end G3Parser
 end Gama
